@@ -53,6 +53,27 @@ History of the checks against these changes (what was strengthened because of a 
 * C12-1 - relaunch histories with an event-enqueuing request while terminated added (DapWire `ExecEnqTerm`).
 * C13-1 - function names with several places added to DapBp and the puppet.
 * C18-1 - link base of every object made a model parameter; cdylib with a non-zero text-segment base added.
+
+Second round (eight more changes, `*-2`), asked to need something specific to manifest:
+
+* C01-2 (breakpoints < 8 bytes apart) - first run ended in a tool error (a `null` observation reached TLC's JSON
+  reader; unknown observations are now -1); `also_adjacent` batches (two candidate addresses on neighbouring
+  instructions) added to C01 and C02: caught by both.
+* C02-2 (temporaries left behind by an interrupted `next`) - caught by C02's signal histories (`residual_patch`).
+* C03-2 (`stepi` with a caller's frame selected) - first missed: `Frame` action added to Session.tla and
+  context-aware selection of histories (design/SESSION.md); caught.
+* C05-2 (`.debug_frame` ignored when `.eh_frame` exists) - first not covered: mixed Rust + C puppet `cmix8` whose C
+  functions have their CFI in `.debug_frame` only; caught (`backtrace_truncated`).
+* C09-2 (cloned thread not registered) - first run ended in a tool error: the kernel model entered a new-born thread
+  into its event stop at its creator's clone event and took `R` in /proc for a model error; an uncollected birth
+  stop is now exempt from that self-check (TraceKernel.tla `ProbeDisagrees`); caught (`not_all_stopped`,
+  `thread_list_mismatch`).
+* C11-2 (attach, restart, quit leaves the relaunched process behind) - first missed: attached sessions never
+  restarted; the harness now follows a restart of an attached program (it becomes a launched one) and half of the
+  attached lifecycle histories keep their `restart`.
+* C13-2 (sourceMap: previous set looked up under the client path) - first missed: no session used a sourceMap; a third
+  of the replayed sessions (half of those that replace a source's set) now go through one; caught.
+* C14-2 (DR7 written before the address registers) - caught as it was (`accepted_add_not_armed`).
 """
 (V / "README.md").write_text(out)
 print(out[-2500:])
